@@ -26,7 +26,7 @@ func init() {
 		ID: "C18",
 		Explanation: "Structural necessary conditions of C18: (actions) action ↔ value key ↔ validator ↔ applier tables agree, no orphan; (elem) in every error-returning function of the patch validator no success return sits lexically inside a loop, and the validating loops cannot start another iteration without the success edge of a check on the current element — every key, service, endpoint, id and URI is examined; (limits) id length is bounded by the constant 50 with an inclusive operator and matched against ^[A-Za-z0-9_-]+$, service type by 30; exactly-one-of key material and allowed-member rules are loops of the same kind; " +
 			"(pointer.members) the set of RFC 6902 members that the JSON-patch engine dereferences as JSON pointers is derived from the engine's own source in the module cache (accessors of its operation type whose result reaches the pointer resolver: path and from); the validator must apply the protected-prefix test (public keys, services) to each such member; (validated.before.apply) the applier calls ApplyPatches only under Ok(ValidateDelta(op.Delta)) and chunk-file deltas are validated element-wise on read; (norec) no recursion among subject functions reachable from ApplyPatches / ValidateDelta; (nopanic) every panic-capable instruction in them is discharged (E10). " +
-			"(pointer.rooted) the engine resolves a pointer from its first '/' (premise re-derived from its findObject on every run), so each pointer member must be rejected unless it starts with '/'; (alias) the engine's copy stores the node it got from the source (premise re-derived from its copy on every run), so each Apply call receives exactly one operation (re-serialized between operations) and is reached only after a check whose every success path has op ≠ copy or ¬HasPrefix(path, from + \"/\"); (elem.loops.total) the validator package has at least the number of rejecting per-element loops confirmed by reading, wherever they live; " +
+			"(pointer.rooted) the engine resolves a pointer from its first '/' (premise re-derived from its findObject on every run), so each pointer member must be rejected unless it starts with '/'; (alias.nocopy) the engine's copy stores the node it got from the source (premise re-derived from its copy on every run) and identifies pointer spellings no textual test can mirror, so no copy operation reaches the engine: every Apply call is dominated by a loop over the applied patch whose every completing iteration has kind ≠ copy; (engine.recover) the engine indexes arrays with an unguarded Atoi result (premise re-derived on every run), so every Apply call sits in a function whose deferred closure recovers and assigns the error result; (elem.loops.total) the validator package has at least the number of rejecting per-element loops confirmed by reading, wherever they live; " +
 			"Not decided: panics, stack depth or termination inside evanphx/json-patch and encoding/json.",
 		Run: runC18,
 	})
